@@ -445,6 +445,8 @@ RunResult run_plan(const Plan &p, const Limits &lim, std::function<int()> body)
 	for (int64_t i = 0; i < n; i++)
 		r.res[(size_t)i] = {sh->res[i][0], sh->res[i][1], sh->res[i][2], sh->res[i][3]};
 	r.blob.assign(sh->blob, sh->blob_len);
+	if (getenv("SIMRUN_BLOB"))
+		fprintf(stderr, "---- blob ----\n%s---- out ----\n%s---- trace ----\n%s\n", r.blob.c_str(), r.out.c_str(), r.trace.c_str());
 	if (r.crashed() && getenv("SIMRUN_DUMP"))
 		fprintf(stderr, "---- incarnation %s ----\n%s\n---- trace ----\n%s\n", r.status_str().c_str(), r.err.c_str(), r.trace.c_str());
 	if (r.asan && r.err.find("SEGV on unknown address") != std::string::npos)
